@@ -36,6 +36,7 @@ type Row struct {
 	Note     string         `json:"note"`
 	Tags     string         `json:"tags"` // extra build tags needed (e.g. race) -- rows with tags are run in a separate load
 	NoValidate bool         `json:"no_validate"`
+	ModelLevel bool         `json:"model_level"` // counterexamples depend on engine-only state (type addresses): reported without native confirmation
 	SafetyOnly bool         `json:"safety_only"` // only panics, out-of-bounds accesses and unwinding failures count (C06)
 }
 
@@ -373,6 +374,9 @@ func cmdCheck(args []string) int {
 				if contains(nr.Fails, want) {
 					violations++
 					violationLines = append(violationLines, writeReplay(id, row, params, c.f, c.f.Msg))
+				} else if row.ModelLevel && c.f.Kind == "ASSERT" {
+					violations++
+					violationLines = append(violationLines, writeReplay(id, row, params, c.f, "model-level (depends on the engine's type addresses, not reproducible natively): "+c.f.Msg))
 				} else {
 					inconclusive = append(inconclusive, fmt.Sprintf("SPURIOUS-ENGINE %s: counterexample for %s (%s) did not reproduce natively: native status=%s fails=%v msg=%s vec=%v",
 						row.Func, c.f.ID, c.f.Msg, nr.Status, nr.Fails, nr.Msg, trimVec(c.f.Vector)))
